@@ -333,7 +333,6 @@ func VerifDumpRegistry() string {
 
 func VerifInTesting() bool                 { return verifInTesting }
 func VerifIsDebug() bool                   { return verifIsDebug }
-func VerifHomeCwd() (string, string)       { return homeDir, currDir }
 func VerifKnownPathMap() map[string]string { return cpMap(knownPathMap) }
 func VerifKnownPathRegexps() (ret [][2]string) {
 	for _, r := range knownPathRegexpMap {
